@@ -123,7 +123,9 @@ def run(ctx):
     locks_in_loop = [bb for bb, t in pl.calls() if callee_name(t["fn"].get("path", "")) == "lock" and pl.in_loop(bb)]
     ctx.check("lock-discipline", "no-lock-in-serving-loop", not locks_in_loop, "no mutex is taken inside the serving loop", "a mutex is locked inside the serving loop", ctx.loc(pl))
     chk = audit_facts.Checker(ctx, W)
-    eng = NoPanic(ctx, W, [SERVER + "::new", "roughenough_server::display_config"], rule="startup-no-panic", requirement_checker=chk.check)
+    cloud = {f.path for f in P.fns.values() if "roughenough::kms::awskms" in f.path or "roughenough::kms::gcpkms" in f.path}
+    ctx.extra["cloud_provider_code_out_of_scope"] = len(cloud)
+    eng = NoPanic(ctx, W, [SERVER + "::new", "roughenough_server::display_config"], rule="startup-no-panic", requirement_checker=chk.check, skip_fns=cloud, stop=cloud)
     recs = eng.run()
     report(ctx, eng, recs, rule="startup-no-panic")
     ctx.floor("startup-no-panic", len([r for r in recs if not r.get("trivial")]), 15, "panic obligations in the start-up code run under the config lock")
